@@ -195,7 +195,9 @@ def run_case(case):
                 raise ValueError(kind)
         except hioing.NamerError:
             got = "raise"
-        if got in ("raise", False):
+        # "reports no change" is read as a falsy return (False today; None would do), "took effect" as a truthy one
+        noeffect = kind != "clear" and (isinstance(got, str) and got == "raise" or not got)
+        if noeffect:
             if (nm.addrByName, nm.nameByAddr) != (before_a, before_n):
                 r.fail("C27/rejected-op-changed-state", "step %d %r -> %r changed %r to %r" % (
                     i, op, got, before_a, nm.addrByName))
@@ -205,10 +207,10 @@ def run_case(case):
         # The statement distinguishes an operation that takes effect from one that "is rejected or reports no change";
         # WHICH of the two non-effect outcomes (False or NamerError) an implementation picks for a given input is not part
         # of it, so they are compared as one class.  (clear returns nothing.)
-        if kind != "clear" and (got is True) != (exp is True):
+        if kind != "clear" and (not noeffect) != (exp is True):
             r.fail("C27/return-model", "step %d %r returned %r, model %r (state %r)" % (i, op, got, exp, before_a))
             return r
-        if got is True and kind in ("chaddr", "chname"):
+        if not noeffect and kind in ("chaddr", "chname"):
             changed = True
         if not check_state(r, nm, model, i):
             return r
